@@ -1,5 +1,6 @@
 import SamVerif.Drive.Common
 import SamVerif.Model.Listener
+import SamVerif.Model.TableReplace
 namespace SamVerif.Drive.C09
 open SamVerif SamVerif.Drive SamVerif.Listener
 
@@ -132,16 +133,44 @@ def handle (kind : String) (args : List String) (impl : String) : String :=
           else ""
         let ss := if sp == "" then "" else s!"SPEC {sp} impl={impl}"
         if d == "" && ss == "" then "ok" else d ++ (if d != "" && ss != "" then " ; " else "") ++ ss
-  | "c09.table", _ =>
-    -- `Props.C09t.stop_leaves_nothing_running`: whatever the history of requests, replacements, lost connections and late removals,
-    -- Stop closes every connection that was made
-    let up := (field impl "up").splitOn "/"
-    let sp :=
-      if field impl "stop" != "ok" then "stop-does-not-return"
-      else if up.getD 0 "a" != up.getD 1 "b" then "upstream-connection-left-open-after-stop"
-      else if field impl "leaked" != "0" then "goroutines-left-after-stop"
-      else ""
-    if sp == "" then "ok" else s!"SPEC {sp} impl={impl}"
+  | "c09.table", toks =>
+    -- `Model.TableReplace` driven by the script: how many connections are made (`next`), and — `Props.C09t.stop_leaves_nothing_running` —
+    -- Stop closes every one of them
+    let stepD (t : TableReplace.T) (l : TableReplace.Label) : TableReplace.T := (TableReplace.step t l).getD t
+    -- (state, armed, parked connection)
+    let ended (t : TableReplace.T) (armed : Bool) (parked : Option Nat) (id : Nat) : TableReplace.T × Bool × Option Nat :=
+      if armed && parked.isNone then (t, false, some id) else (stepD t (.ended id), armed, parked)
+    let go := toks.foldl (fun (acc : Option (TableReplace.T × Bool × Option Nat)) tok =>
+      match acc with
+      | none => none
+      | some (t, armed, parked) =>
+        if tok == "g" then some (if t.table.isNone then stepD t .create else t, armed, parked)
+        else if tok == "P" then some (t, parked.isNone, parked)
+        else if tok == "R" then
+          match t.table with
+          | some id => some (ended (stepD t .replaceAll) armed parked id)
+          | none => some (t, armed, parked)
+        else if tok == "L" then
+          match t.table with
+          | some id => if id ∈ t.running then some (ended (stepD t (.lost id)) armed parked id) else some (t, armed, parked)
+          | none => some (t, armed, parked)
+        else if tok == "E" then
+          match parked with
+          | some id => some (stepD t (.ended id), false, none)
+          | none => some (t, false, parked)
+        else none) (some (stepD {} .create, false, none))      -- the slot refresh of the start has made the first connection
+    match go with
+    | none => "bad-op"
+    | some (t, _, _) =>
+      let up := (field impl "up").splitOn "/"
+      let d := if up.getD 1 "" == toString t.next then "" else s!"DIFF model=connections-made={t.next} impl={impl}"
+      let sp :=
+        if field impl "stop" != "ok" then "stop-does-not-return"
+        else if up.getD 0 "a" != up.getD 1 "b" then "upstream-connection-left-open-after-stop"
+        else if field impl "leaked" != "0" then "goroutines-left-after-stop"
+        else ""
+      let ss := if sp == "" then "" else s!"SPEC {sp} impl={impl}"
+      if d == "" && ss == "" then "ok" else d ++ (if d != "" && ss != "" then " ; " else "") ++ ss
   | "c09.replace", [] =>
     -- `Props.C09t.stop_leaves_nothing_running`: whatever connections were made while the host list was being replaced, Stop closes them all
     let up := (field impl "up").splitOn "/"
